@@ -659,6 +659,7 @@ func fireRaw(ctx context.Context, tr *simTransport, rq RawReq, out *Outcome) {
 		tryWatch(&v1alpha1.WatchRequest{Namespace: "ns1", Type: TypeA, Options: &v1alpha1.WatchOptions{TailEvents: 1 << 30}, ApiVersion: 1})
 	}
 	out.probe("raw:" + rq.Kind)
+	out.fault("malformed-request")
 }
 
 func (c11) Run(t *testing.T, cs Case, trace bool) *Outcome {
@@ -815,6 +816,7 @@ func (c11) Run(t *testing.T, cs Case, trace bool) *Outcome {
 				out.violate("C11/errored-lost", "errored-lost:"+rec.Spec.Kind, "a remote subscriber that overran the server's history (2 events retained, 12 written while it was stalled) did not receive the terminal Errored event a direct subscriber gets\nevents: %s", renderEvents(rec.Events))
 			}
 			out.probe("overrun-scenario")
+			out.fault("history-overrun-scenario")
 		}
 		out.Nontrivial = out.Probes["write-ok"] > 0 && out.Probes["watch-compared"] > 0
 		for k := range out.Probes {
